@@ -6,6 +6,9 @@ Streams
            vs Model.Debugger.hostIsTrusted / getHost (the idna codec's answers are supplied to the model:
            IDNA is an opaque parameter). Oracle: accepted => equals a listed name or is a true subdomain
            of a dot-prefixed entry (bracket-aware port strip, label-wise); no failure other than SecurityError.
+  session  PIN attempts interleaved with run-time PIN changes (app.pin = new), reuse of the cookie the server
+           actually issued, and eval attempts, vs Model.Debugger.runSession. Oracle: eval runs / a wrong PIN is
+           authenticated only with a cookie issued for the *current* PIN.
   pin      histories of PIN attempts {right, wrong, stale cookie} against the real pin_auth (time.sleep
            stubbed) vs Model.Debugger.runHistory. Oracle: an unbounded failure count; more than ten
            failures since the last success => the right PIN is refused.
@@ -17,6 +20,7 @@ from __future__ import annotations
 
 import importlib.util
 import os
+import re
 import sys
 
 from vlib.core import VERIF, Check, Stream, b01, hs, line, opt, unhs
@@ -42,10 +46,11 @@ def gen_mod():
 
 
 def strip_port(h: str) -> str:
-    """authority without the port; an IPv6 literal keeps its brackets"""
+    """authority without the port: an IPv6 literal keeps its brackets, and only a ':port' directly
+    after the closing bracket is a port - anything else after it is part of the (then unmatched) name"""
     if h.startswith("["):
-        i = h.find("]")
-        return h[: i + 1] if i >= 0 else h
+        m = re.fullmatch(r"(\[[^\]]*\])(:.*)?", h, re.S)
+        return m.group(1) if m else h
     return h.split(":", 1)[0]
 
 
@@ -80,11 +85,6 @@ def spec_trusted(host, trusted):
             if hit:
                 verdict = "either"
     return verdict
-
-
-def miscut(s: str) -> bool:
-    """does partition(':') cut this authority somewhere else than a bracket-aware port strip?"""
-    return strip_port(s) != s.partition(":")[0]
 
 
 def idna_table(strings):
@@ -144,7 +144,7 @@ def gen_host(rng, trusted):
     elif r < 0.62:
         h = base_np.upper() if rng.random() < 0.5 else base_np.title()
     elif r < 0.7 and base_np.startswith("["):
-        h = rng.choice(["[::2]", "[", "[::1]", "[fe80::2]", "[::1", "[]", "[2001:db8::2]"])
+        h = rng.choice(["[::2]", "[", "[::1]", "[fe80::2]", "[::1", "[]", "[2001:db8::2]", base_np + "x", base_np + "]", base_np[:-1], base_np + ".evil.com"])
     elif r < 0.74:
         return rng.choice([None, "", ":", ":80", ".", ".."])
     else:
@@ -163,10 +163,17 @@ class HostStream(Stream):
         {"via": "get_host", "host": hs("a..b"), "trusted": [hs("a.b")], "scheme": "http"},
         {"via": "request", "host": hs(".localhost"), "trusted": [hs(".localhost")], "scheme": "http"},
         {"via": "fn", "host": hs("localhost"), "trusted": [hs("a..b"), hs("localhost")]},
-        # F20c (known): partition(':') cuts a bracketed IPv6 literal
+        # F20c (fixed by ede13ce): partition(':') cut a bracketed IPv6 literal, every '[...' equalled every '[...'
         {"via": "fn", "host": hs("[::2]"), "trusted": [hs("[::1]")]},
         {"via": "fn", "host": hs("["), "trusted": [hs("[::1]")]},
         {"via": "fn", "host": hs("[::1]:8080"), "trusted": [hs("[::1]")]},
+        {"via": "fn", "host": hs("[::1]"), "trusted": [hs("[::1]:443")]},
+        {"via": "fn", "host": hs("[::1]x"), "trusted": [hs("[::1]")]},
+        {"via": "fn", "host": hs("[::1]"), "trusted": [hs("[::1]evil")]},
+        {"via": "fn", "host": hs("[::1"), "trusted": [hs("[::1]")]},
+        {"via": "fn", "host": hs("[::1]]"), "trusted": [hs("[::1]")]},
+        {"via": "get_host", "host": hs("[::2]:80"), "trusted": [hs("[::1]")], "scheme": "http"},
+        {"via": "request", "host": hs("[fe80::2]"), "trusted": [hs("[fe80::1]")], "scheme": "https"},
         # look-alikes and true subdomains
         {"via": "fn", "host": hs("evillocalhost"), "trusted": [hs(".localhost")]},
         {"via": "fn", "host": hs("localhost.evil.com"), "trusted": [hs(".localhost"), hs("localhost")]},
@@ -218,7 +225,7 @@ class HostStream(Stream):
     def model_line(self, case):
         host, trusted = self._args(case)
         if case["via"] == "fn":
-            need = ([host.partition(":")[0]] if host else []) + [(t[1:] if t.startswith(".") else t).partition(":")[0] for t in trusted]
+            need = ([strip_port(host)] if host else []) + [strip_port(t[1:] if t.startswith(".") else t) for t in trusted]
             return line("host.trusted", case["host"], strs(trusted), idna_table(need))
         scheme = case["scheme"]
         eff = host
@@ -228,7 +235,7 @@ class HostStream(Stream):
             eff = eff[:-3]
         elif scheme in ("https", "wss") and eff.endswith(":443"):
             eff = eff[:-4]
-        need = [eff.partition(":")[0]] + [(t[1:] if t.startswith(".") else t).partition(":")[0] for t in trusted]
+        need = [strip_port(eff)] + [strip_port(t[1:] if t.startswith(".") else t) for t in trusted]
         return line("host.get", hs(scheme), case["host"], hs("srv.example"), 8080, strs(trusted), idna_table(need))
 
     def oracle(self, case, real_out):
@@ -251,12 +258,6 @@ class HostStream(Stream):
             return f"{case['via']} raised {real_out[4:]} instead of SecurityError"
         if spec_trusted(eff, trusted) is False:
             return f"accepted although {eff!r} is neither listed in {trusted!r} nor a true subdomain of a dot-prefixed entry"
-        return None
-
-    def finding_key(self, case, what):
-        host, trusted = self._args(case)
-        if what.startswith("accepted although") and ((host and miscut(host)) or any(miscut(t[1:] if t.startswith(".") else t) for t in trusted)):
-            return "F20c"
         return None
 
     def nontrivial(self, case, real_out):
@@ -380,6 +381,139 @@ class PinStream(Stream):
     def bucket(self, case, real_out):
         n = len(case["h"])
         return ("len<=14" if n <= 14 else ("len<=255" if n <= 255 else "len>255")) + ("/locked" if "x" in real_out else "/open")
+
+    def mutate(self, case, rng):
+        h = case["h"]
+        for i in range(len(h)):
+            yield {"h": h[:i] + h[i + 1 :]}
+
+
+# --------------------------------------------------------------------------
+
+
+def run_session(h: str):
+    """drive the real debugger through a session: PIN attempts, PIN changes, reuse of the cookie the
+    server issued, eval attempts. Returns (observations, final counter)."""
+    g = gen_mod()
+    rig = g.Rig(True, True)
+    held = None  # the cookie value the client was last issued
+    pin = g.PIN
+    changes = 0
+    out = []
+    for ch in h:
+        if ch == "c":
+            changes += 1
+            pin = "%03d-%03d-%03d" % (changes, changes, changes)
+            rig.app.pin = pin  # the public setter: "the pin was changed"
+            out.append("c")
+            continue
+        if ch == "e":
+            path, q = rig.build_query("eval", "right", "known")
+            res = rig.request(path, q, "localhost", "absent", cookie_raw=held)
+            out.append("E" if res["eval_calls"] else "e")
+            continue
+        if ch == "r":
+            path, q = rig.build_query("pinauth-right", "right", "known", extra={"pin": pin})
+            res = rig.request(path, q, "localhost", "absent")
+        elif ch == "w":
+            path, q = rig.build_query("pinauth-wrong", "right", "known")
+            res = rig.request(path, q, "localhost", "absent")
+        elif ch == "s":
+            path, q = rig.build_query("pinauth-wrong", "right", "known")
+            res = rig.request(path, q, "localhost", "wronghash")
+        else:  # "u": the held cookie with a wrong PIN
+            path, q = rig.build_query("pinauth-wrong", "right", "known")
+            res = rig.request(path, q, "localhost", "absent", cookie_raw=held)
+        code = g.classify(res)
+        if code < g.OUT_PINAUTH or code > g.OUT_PINAUTH + 3:
+            out.append("?")
+            continue
+        auth, exhausted = divmod(code - g.OUT_PINAUTH, 2)
+        out.append("a" if auth else ("x" if exhausted else "f"))
+        if auth:
+            issued = rig.issued_cookie(res)
+            if issued is not None:
+                held = issued
+    return "".join(out), int(rig.app._failed_pin_auth.value)
+
+
+class SessionStream(Stream):
+    """PIN attempts interleaved with run-time PIN changes and reuse of cookies issued earlier"""
+
+    name = "session"
+    corpus = [
+        {"h": "rce"},  # a cookie issued for the former PIN must not open eval
+        {"h": "rcu"},  # ... nor authenticate a wrong PIN
+        {"h": "rcre"},  # re-authenticating with the new PIN does
+        {"h": "re"},
+        {"h": "e"},
+        {"h": "rcrcue"},
+        {"h": "rcuuuuuuuuuuuur"},  # stale cookies count as failures: locked out
+        {"h": "wwwwwwwwwwwrce"},
+        {"h": "rucucue"},
+        {"h": "crce"},
+        {"h": "rccre"},
+    ]
+
+    def cases(self, rng, tier):
+        import itertools
+
+        if tier == "thorough":
+            for n in range(0, 7):
+                for t in itertools.product("rwcue", repeat=n):
+                    yield {"h": "".join(t)}
+        count = 0
+        while tier != "quick" or count < 500:
+            count += 1
+            n = rng.choice([2, 3, 4, 6, 8, 12, 14, 20, 40])
+            w = rng.choice([(3, 1, 1, 3, 3, 4), (1, 1, 1, 1, 1, 1), (2, 4, 2, 2, 3, 2), (1, 0, 0, 2, 6, 3)])
+            yield {"h": "".join(rng.choices("rwscue", weights=w, k=n))}
+
+    def exhaustive(self, tier):
+        return tier == "thorough"  # every session up to length 6 over {r, w, c, u, e}
+
+    def real(self, case):
+        ans, counter = run_session(case["h"])
+        return f"{ans}|{counter}"
+
+    def model_line(self, case):
+        return line("pin.session", case["h"] or "-")
+
+    def oracle(self, case, real_out):
+        if real_out.startswith("EXC"):
+            return f"the debugger raised {real_out[4:]}"
+        ans = real_out.split("|")[0]
+        cur = 0  # which PIN is current
+        held = None  # for which PIN the client's cookie was issued
+        failures = 0
+        for i, (ch, a) in enumerate(zip(case["h"], ans)):
+            if a == "?":
+                return f"step {i} was not answered by pinauth"
+            if ch == "c":
+                cur += 1
+            elif ch == "e":
+                if a == "E" and held != cur:
+                    return f"step {i}: code was evaluated with " + ("no PIN cookie" if held is None else "a cookie issued for a former PIN")
+            else:
+                cookie_ok = ch == "u" and held == cur
+                if a == "a":
+                    if not cookie_ok and ch != "r":
+                        return f"step {i}: pinauth authenticated without the current PIN or a cookie valid for it"
+                    if not cookie_ok and failures > 10:
+                        return f"step {i}: authenticated after {failures} failed attempts since the last success"
+                    if ch == "r":
+                        failures = 0
+                    held = cur
+                else:
+                    failures += 1
+        return None
+
+    def nontrivial(self, case, real_out):
+        return "c" in case["h"] and len(case["h"]) > 2
+
+    def bucket(self, case, real_out):
+        ans = real_out.split("|")[0]
+        return ("changed" if "c" in case["h"] else "same-pin") + ("/evalran" if "E" in ans else "") + ("/locked" if "x" in ans else "")
 
     def mutate(self, case, rng):
         h = case["h"]
@@ -562,13 +696,13 @@ CHECK = Check(
     prop="C20",
     gen=["Debugger"],
     modules=["WzVerif.Props.C20"],
-    streams=[HostStream(), PinStream(), GateStream()],
+    streams=[HostStream(), PinStream(), SessionStream(), GateStream()],
     assumptions=[
         "the idna codec is an opaque parameter of the model (String -> Except); the harness supplies CPython's answers for the strings of each case, the theorems hold for every such function",
         "hash_pin (sha1), gen_salt and time.time() are abstracted: the PIN cookie is one of {valid, expired, wrong hash, malformed, absent}, the secret one of {right, wrong, absent}",
         "the generated gate table is the complete product command x secret x Host (21 listed values with the class the property text gives them) x cookie x frame x evalex x pin, one fresh DebuggedApplication per point, time.sleep and _log stubbed, the frame is a spy object registered in app.frames",
         "get_resource (static files of the debugger) is served without Host or secret check; the property does not list it among the gated endpoints",
-        "known finding F20c: partition(':') cuts bracketed IPv6 literals, host_is_trusted('[::2]', ['[::1]']) is True; the exactness theorem is proved for hosts and entries whose port strip is not affected and its full-strength negation is proved",
+        "PINs are abstracted to generations in the session model (a run-time change of app.pin increments the generation; a cookie carries the generation it was issued for); cookie expiry is not part of sessions",
         "multi-process sharing of the failure counter (multiprocessing.Value) and real sleeping are outside the model",
     ],
     trusted_extra=["CPython's idna codec (encodings.idna) - opaque in the model, also used by the host oracle"],
@@ -578,7 +712,7 @@ CHECK = Check(
 
 MANIFEST = {
     "level_text": "Machine-checked Lean 4 theorems: the eval / console / pinauth / printpin gates decided by the kernel over the complete dispatch table obtained on every run by driving the real DebuggedApplication over the property's product (20160 points) and proved on the model for every input; host_is_trusted soundness/completeness for every host, trusted list and IDNA function; PIN lockout permanence for every attempt history (saturating byte counter observationally equal to an unbounded counter; the wrapping counter refuted). Model tied to the code by correspondence streams for host validation, PIN histories and dispatch.",
-    "level_note": "Trusted: Lean kernel; extract.py + the rig driving DebuggedApplication; the harness; CPython's idna codec (opaque). Known finding F20c (bracketed IPv6 literals cut at ':').",
+    "level_note": "Trusted: Lean kernel; extract.py + the rig driving DebuggedApplication; the harness; CPython's idna codec (opaque).",
     "technique": "Lean 4 proof (decide +kernel over a regenerated complete decision table; induction over attempt histories and trusted lists) + model/code correspondence",
     "design_ref": "DESIGN.md section 4, C20",
 }
